@@ -300,7 +300,7 @@ def setup(ctx):
     import fickling.analysis as analysis
     from fickling import tracing
     import fickling.cli as cli
-    watch = effects.EffectWatch(ctx.scratch, os.environ.get("VERIF_REPO", "/repo"))
+    watch = effects.EffectWatch(ctx.scratch, os.environ.get("VERIF_REPO", "/repo"), answering_environ=True)
     mods = (f, analysis, tracing, cli, fickling)
     # warm-up: every entry point on benign inputs, so lazy imports (codecs, locale, stdlib list) are done
     warm = [pickle.dumps(v, p) for p in range(6) for v in ([1, "é", b"b", 2.5, {"k": (1,)}, {3}], "text\n")]
@@ -355,6 +355,8 @@ def run_shard(ctx):
                 if not ctx.mine(k):
                     continue
                 observe_case(ctx, mods, watch, vl, vd, ep, interesting, ptoks if vi else frozenset())
+    if watch.environ is not None:
+        ctx.agg.notes.append({"environment_variables_the_library_asked_for": sorted(set(watch.environ.asked))[:20]})
 
 
 def replay(ctx, payload):
